@@ -181,7 +181,16 @@ class Ctx:
                 return (r[0][5:-1], r[1])
             return None
         pe.ext_of = ext_of
+        pe.purity = self.purity()
         return pe
+
+    def purity(self):
+        if getattr(self, '_purity', None) is None:
+            from .purity import Purity
+            self._purity = Purity(self.repo)
+            T.PURITY = self._purity
+            self.notes['methods that may write their receiver (sequenced)'] = sorted(self._purity.writing)
+        return self._purity
 
     def summ(self, rel, qual, args=None, kwargs=None, self_term=None, **kw):
         f = self.func(rel, qual)
@@ -200,6 +209,7 @@ class Ctx:
         pe = T.PE(resolve_global=lambda n: None if n in T.BUILTINS else ('g', n), **kw)
         if getattr(self, '_last_rel', None):
             pe.sig_of = self.sig_resolver(self._last_rel)      # restatements are read in the context of the function just summarised
+        pe.purity = self.purity()
         return pe.run_function(f, args=args, kwargs=kwargs, self_term=self_term)
 
     def spec_term(self, src, **kw):
